@@ -23,6 +23,7 @@ func init() {
 
 func runC17(p *eng.Prog, r *eng.Report, tier string) {
 	c := &cx{p, r, tier}
+	c.r.Note("C17.16: %d range loops over strings in package styling", r17RuneLengthsInBytes(c, "C17.16"))
 	c17QuoteChain(c, "C17.10")
 	c17QuoteStartedHasDecoder(c, "C17.12")
 	c17CloseDirectiveEndsTheSpan(c, "C17.13")
